@@ -7,6 +7,18 @@ from .interp import Interp, Monitor, Unsupported, NULL
 from . import stubs as ST, explore as EX
 
 def _noop(I, a): return None
+def cvm_log_stub(I, a):
+    """cvm::log: delivery/formatting outside every claim; the text (with in-band tokens for symbolic numbers) is kept so that
+    harnesses can read back a logged quantity"""
+    try:
+        p = a[0]; data = I.load(p, 8, 'ptr'); n = I.load((p[0], p[1] + 8), 8, 'i64')
+        if isinstance(n, int) and n < 4096:
+            bs = I.read_bytes(data, n)
+            if all(isinstance(b, int) for b in bs):
+                I.ext.setdefault('log', []).append(bytes(bs).decode('latin1'))
+                if len(I.ext['log']) > 200: I.ext['log'].pop(0)
+    except Exception: pass
+    return None
 def _zero(I, a): return 0
 
 def cvm_error_stub(I, a):
@@ -34,7 +46,7 @@ def _std_string(I, p):
 
 STANDING_PREFIX = [
     ('_ZNSt8ios_base4Init', _noop),
-    ('_ZN12colvarmodule3logE', _noop),                # cvm::log: formatting of log text is outside every claim
+    ('_ZN12colvarmodule3logE', cvm_log_stub),                # cvm::log: formatting of log text is outside every claim
     ('_ZN12colvarmodule5usage12cite_feature', _zero),
     ('_ZN12colvarmodule5usage13cite_paper', _zero),
     ('_ZN12colvarmodule5errorERKNSt7__cxx1112basic_string', cvm_error_stub),
